@@ -130,6 +130,7 @@ var numberPool = func() []string {
 		"1e308", "1.7976931348623157e308", "1.7976931348623158e308", "-1.7976931348623157e308",
 		"4.9e-324", "5e-324", "2.4703282292062327e-324", "2.4703282292062328e-324", "2.2250738585072014e-308", "2.2250738585072011e-308", "2.225073858507201e-308",
 		"1e-400", "-1e-400", "1e-999999", "0.000001", "1e21", "1e-7", "123456789.123456789", "9007199254740993", "9007199254740992.5", "4503599627370496.5",
+		"0.01e-9223372036854775808", "1e-99999999999999999999", "0e99999999999999999999", "5E-4611686018427387904",
 		"1.0e+00", "1E-02", "10", "100", "1000000", "1e1", "0.5", "-0.5", "0.25", "3.141592653589793", "2.718281828459045e0",
 		"9223372036854775807.0", "9223372036854775808.0", "18446744073709551615.0", "1e19", "1e20", "12345678901234567890", "0.1e1", "0.00", "-0e0",
 	}
